@@ -107,7 +107,7 @@ CHECKS = {
         "timeout": {"quick": 1200, "thorough": 14000},
     },
     "C04": {
-        "scenarios": [("C04-tamper", "vsim")],
+        "scenarios": [("C04-tamper", "vsim"), ("C04-reflect", "vsim")],
         "rule": "one semantically addressed mutation per case in real multi-segment traffic (1-3 sessions, both directions, both "
                 "transports, generated traffic patterns incl. low entropy): region in {nonce, encrypted metadata, metadata tag, "
                 "padding 1, body, body tag, padding 2, last byte} x kind in {bit flip, byte substitution, insertion, deletion, "
